@@ -27,6 +27,10 @@ Outcome form_counting_4(int order, const Mat& X, tapkee::ParametersSet ps, Count
 Outcome form_counting_5(int order, const Mat& X, tapkee::ParametersSet ps, Counters& cnt, bool use_range, int n_override);
 Outcome form_counting_6(int order, const Mat& X, tapkee::ParametersSet ps, Counters& cnt, bool use_range, int n_override);
 Outcome form_counting_7(int order, const Mat& X, tapkee::ParametersSet ps, Counters& cnt, bool use_range, int n_override);
+// the same callbacks over an arbitrary sequence of column labels (a permutation, not 0..N-1)
+Outcome form_counting_sequence(const Mat& X, tapkee::ParametersSet ps, Counters& cnt, const std::vector<int>& sequence);
+Outcome form_eigen_sequence(const Mat& X, tapkee::ParametersSet ps, const std::vector<int>& sequence);
+Outcome form_precomputed_sequence(const Mat& X, tapkee::ParametersSet ps, const std::vector<int>& sequence);
 Outcome form_matrix(const Mat& X, tapkee::ParametersSet ps);
 Outcome form_precomputed(const Mat& X, tapkee::ParametersSet ps);
 Outcome form_objects(const Mat& X, tapkee::ParametersSet ps, bool use_range);
